@@ -114,6 +114,14 @@ theorem pools_against_standard {env : Env} {s : State} (hW : WF env s) : âˆ€ p â
   hW.counterNeStd
 
 
+/-! ## the executable predicates the driver evaluates on implementation transitions hold of every model transition -/
+
+open Spec in
+theorem no_module_recipient_monitor {env : Env} {s s' : State} {m : MsgSwap} {r : Resp} (h : swap env s m = .ok (s', r)) :
+    c09_noModuleRecipient { env := env, pre := s, op := .swap m, ok := true, resp := r, post := s' } = true := by
+  have := no_module_recipient h
+  simp only [c09_noModuleRecipient, Bool.not_true, Bool.false_or, this, Bool.not_false]
+
 /-! ## non-vacuity: each kind of message succeeds on a concrete non-trivial state -/
 
 example : (step exEnv exState exSell).toBool = true := by decide +kernel
